@@ -12,6 +12,9 @@
 (*   sw.descend    : & ! ? * + visit their operand (as built before        *)
 (*                   the repair: no -- F5), & ! contribute initial names   *)
 (*                   (F4), an empty class is not nullable (F7)             *)
+(*   sw.throwDepth : > 0: a throw contributes the initial names of the     *)
+(*                   recovery expressions listing its label (as built: 0   *)
+(*                   -- known finding F22)                                 *)
 (***************************************************************************)
 EXTENDS Integers, Sequences, FiniteSets, TLC
 
@@ -80,6 +83,11 @@ Names(G, sw, st, e) ==
     [] n.k = "recover" -> Names(G, sw, st, n.kids[1]) \cup Names(G, sw, st, n.kids[2])
     [] n.k = "choice" -> UNION {Names(G, sw, st, n.kids[i]) : i \in 1..Len(n.kids)}
     [] n.k = "seq" -> NamesSeq(G, sw, st, n.kids, 1)
+    \* NOT in pigeon (sw.throwDepth = 0 as built): a throw may run, at its own position, the recovery expression of any
+    \* recovery operator listing its label -- the operator is still in force while its recovery expression runs (F22)
+    [] n.k = "throw" /\ sw.throwDepth > 0 ->
+         UNION {Names(G, [sw EXCEPT !.throwDepth = @ - 1], st, G.nodes[h].kids[2]) :
+                  h \in {x \in 1..Len(G.nodes) : G.nodes[x].k = "recover" /\ n.lab \in {G.nodes[x].labs[i] : i \in 1..Len(G.nodes[x].labs)}}}
     [] OTHER -> {}
 NamesSeq(G, sw, st, kids, i) ==
   IF i > Len(kids) THEN {}
@@ -97,6 +105,7 @@ Analyse(G, sw, order) ==
   IN [edges |-> edges, leftrec |-> rec, reject |-> rec # {}]
 
 Identity(G) == [i \in 1..Len(G.rules) |-> i]
-AsRepaired == [choiceAll |-> FALSE, descend |-> TRUE]
-AsF6Repaired == [choiceAll |-> TRUE, descend |-> TRUE]
+AsRepaired == [choiceAll |-> FALSE, descend |-> TRUE, throwDepth |-> 0]
+AsF6Repaired == [choiceAll |-> TRUE, descend |-> TRUE, throwDepth |-> 0]
+AsF22Repaired == [choiceAll |-> TRUE, descend |-> TRUE, throwDepth |-> 3]
 =============================================================================
